@@ -143,10 +143,13 @@ def explore(item):
         mm = metamodel_from_str(GRAMMAR, global_repository=global_repo, builtin_models=builtins)
         parses = []
         mm.register_obj_processors({'Model': lambda m: parses.append(m._tx_filename)})
-        st = {'done': False, 'items': {}, 'uses': [], 'builtin_items': []}
+        st = {'done': False, 'items': {}, 'uses': [], 'builtin_items': [], 'builtin2_items': []}
         if with_builtin:
+            # two builtin models, both built from strings, searched in the order they were added
             bm = mm.model_from_str('item builtin_i0')
             builtins.add_model(bm)
+            bm2 = mm.model_from_str('item builtin2_i0')
+            builtins.add_model(bm2)
             del parses[:]
         def wrap(base):
             class Prov(base):
@@ -181,6 +184,10 @@ def explore(item):
                     n = SymName('n_builtin_%d' % k)
                     it.name = n
                     st['builtin_items'].append((it, n))
+                for k, it in enumerate(bm2.items):
+                    n = SymName('n_builtin2_%d' % k)
+                    it.name = n
+                    st['builtin2_items'].append((it, n))
         mm.register_scope_providers({'*.*': make_provider(pi, wrap)})
         main = os.path.join(tmp, 'main')
         try:
@@ -216,6 +223,7 @@ def explore(item):
                     levels.append(st['items'][imp])
             if with_builtin:
                 levels.append(st['builtin_items'])
+                levels.append(st['builtin2_items'])
             # a file imported twice (or itself) is one scope level only once
             seen, uniq = [], []
             for lv in levels:
@@ -277,7 +285,7 @@ def explore(item):
                 problems.append('%d model objects for file %s' % (len(registry.get(f, [])), f))
         element_ids = {id(it) for f, ms in registry.items() for m in ms[:1] for it in m.items}
         if with_builtin:
-            element_ids |= {id(it) for it in bm.items}
+            element_ids |= {id(it) for it in bm.items} | {id(it) for it in bm2.items}
         for ms in registry.values():
             for m in ms:
                 for u in m.uses:
@@ -340,6 +348,7 @@ def naming(mdl, st):
         out['items'][f] = [nm(n) for it, n in its]
     if st['builtin_items']:
         out['items']['<builtin>'] = [nm(n) for it, n in st['builtin_items']]
+        out['items']['<builtin2>'] = [nm(n) for it, n in st['builtin2_items']]
     for f, o, cref, r in st['uses']:
         out['uses'].setdefault(f, []).append(nm(r))
     return out
@@ -366,7 +375,10 @@ def replay_concrete(shape, pi, global_repo, with_builtin, nm):
         builtins = ModelRepository() if with_builtin else None
         mm = metamodel_from_str(GRAMMAR, global_repository=global_repo, builtin_models=builtins)
         if with_builtin:
-            builtins.add_model(mm.model_from_str('\n'.join('item %s' % n for n in nm['items'].get('<builtin>', []))))
+            bms = {k: mm.model_from_str('\n'.join('item %s' % n for n in nm['items'].get(k, [])))
+                   for k in ('<builtin>', '<builtin2>')}
+            builtins.add_model(bms['<builtin>'])
+            builtins.add_model(bms['<builtin2>'])
         mm.register_scope_providers({'*.*': make_provider(pi)})
         try:
             model = mm.model_from_file(os.path.join(tmp, 'main'))
@@ -386,7 +398,7 @@ def replay_concrete(shape, pi, global_repo, with_builtin, nm):
             for r in nm['uses'].get(fn, []):
                 levels = [fn] + [x for imp in direct_imports(shape, fn)
                                  for x in (sorted(imp) if isinstance(imp, set) else [imp])]
-                levels = list(dict.fromkeys(levels)) + (['<builtin>'] if with_builtin else [])
+                levels = list(dict.fromkeys(levels)) + (['<builtin>', '<builtin2>'] if with_builtin else [])
                 target = None
                 for lv in levels:
                     cnt = nm['items'].get(lv, []).count(r)
@@ -398,9 +410,10 @@ def replay_concrete(shape, pi, global_repo, with_builtin, nm):
                         break
                 else:
                     exp_err = exp_err or 'Unknown object'
-                if model is not None and target is not None and target[0] != '<builtin>':
+                if model is not None and target is not None:
                     u = [u for u in models[fn].uses][nm['uses'][fn].index(r)]
-                    if u.ref is not models[target[0]].items[target[1]]:
+                    owner = bms[target[0]] if target[0].startswith('<builtin') else models[target[0]]
+                    if u.ref is not owner.items[target[1]]:
                         wrong.append('%s in %s does not resolve to item %d of %s' % (r, fn, target[1], target[0]))
         if exp_err and outcome == 'ok':
             return True, 'load succeeds, expected a %s error' % exp_err
@@ -537,7 +550,7 @@ def main():
             chk.harness_error('%s: %s' % (r['shape'], h))
         if r['ok'] == 0:
             chk.harness_error('vacuous: no path of %s/%s loads' % (r['shape'], r['provider']))
-        for b in r['bad'][:1]:
+        for b in r['bad'][:3]:
             first = b[0] if isinstance(b, list) and b else b
             if isinstance(first, dict) and first.get('naming'):
                 bad, detail = replay_concrete(it[0], it[1], it[2], it[3], first['naming'])
